@@ -195,6 +195,7 @@ static int merge_hashes(int argc, char **argv, int first) {
 		std::vector<uint8_t> v;
 		if (!read_file(argv[i], v)) continue;
 		size_t k = v.size() / 8;
+		if (0 == k) continue;	// a worker without non-trivial cases writes an empty file
 		size_t o = all.size();
 		all.resize(o + k);
 		memcpy(all.data() + o, v.data(), k * 8);
